@@ -3,14 +3,14 @@ C17 — simulation of control-free runs, part 7: structural induction over the t
 about `run` (the root's owner sees exactly one finish notification, with the evaluator's result, and the
 leaf functions were called in the evaluator's visit order).
 -/
-import TboxModel.C17.Sim6
+import TboxModel.C17.Loops
 namespace Tbox.C17
 set_option linter.unusedSimpArgs false
 set_option linter.unusedVariables false
 
 /-- the trees covered: no timeouts; leaves FunctionAction / SleepAction (≥ 1 ms); composites Wrapper,
 Composite, IfElse, Switch (with their arities), Sequence (all modes, any number of children), IfThen (any
-number of if/then pairs) -/
+number of if/then pairs), Loop (all modes), LoopIf, Repeat (times ≥ 1; all modes) -/
 def kindOk (d : Node) (n : Nat) : Bool :=
   match d.kind with
   | .func _ _ => n == 0
@@ -21,6 +21,9 @@ def kindOk (d : Node) (n : Nat) : Bool :=
   | .switch _ => decide (2 ≤ n)
   | .seq _ => true
   | .ifThen => n % 2 == 0
+  | .loop _ => n == 1
+  | .loopIf _ => n == 2
+  | .repeat_ k _ => n == 1 && decide (1 ≤ k)
   | _ => false
 
 mutual
@@ -32,13 +35,82 @@ def SerOkL : TL → Bool
 end
 
 mutual
-theorem both_all : ∀ (t : T), SerOk t = true → Clean t = true → Good t ∧ Live t
-  | .node d cs, hs, hc => by
+def size : T → Nat
+  | .node _ cs => 1 + sizeL cs
+def sizeL : TL → Nat
+  | .nil => 0
+  | .cons t ts => size t + sizeL ts
+end
+
+mutual
+theorem size_sk : ∀ (t : T), size (sk t) = size t
+  | .node d cs => by simp only [sk, size, sizeL_sk cs]
+theorem sizeL_sk : ∀ (cs : TL), sizeL (skL cs) = sizeL cs
+  | .nil => rfl
+  | .cons t ts => by simp only [skL, sizeL, size_sk t, sizeL_sk ts]
+end
+
+mutual
+theorem serOk_sk : ∀ (t : T), SerOk (sk t) = SerOk t
+  | .node d cs => by
+    have h1 : (skN d).tmo = d.tmo := rfl
+    have h2 : kindOk (skN d) = kindOk d := rfl
+    simp only [sk, SerOk, h1, h2, skL_length, serOkL_sk cs]
+theorem serOkL_sk : ∀ (cs : TL), SerOkL (skL cs) = SerOkL cs
+  | .nil => rfl
+  | .cons t ts => by simp only [skL, SerOkL, serOk_sk t, serOkL_sk ts]
+end
+
+theorem sizeL_get : ∀ (cs : TL) (j : Nat) (c : T), cs.get? j = some c → size c ≤ sizeL cs
+  | .nil, _, _, h => by simp [TL.get?] at h
+  | .cons t ts, 0, c, h => by simp only [TL.get?, Option.some.injEq] at h; subst h; simp only [sizeL]; omega
+  | .cons t ts, j + 1, c, h => by simp only [TL.get?] at h; have := sizeL_get ts j c h; simp only [sizeL]; omega
+
+theorem serOkL_get : ∀ (cs : TL) (j : Nat) (c : T), SerOkL cs = true → cs.get? j = some c → SerOk c = true
+  | .nil, _, _, _, h => by simp [TL.get?] at h
+  | .cons t ts, 0, c, hs, h => by
+    simp only [SerOkL, Bool.and_eq_true] at hs; simp only [TL.get?, Option.some.injEq] at h; subst h; exact hs.1
+  | .cons t ts, j + 1, c, hs, h => by
+    simp only [SerOkL, Bool.and_eq_true] at hs; simp only [TL.get?] at h; exact serOkL_get ts j c hs.2 h
+
+mutual
+theorem serOk_leafShape : ∀ (t : T), SerOk t = true → LeafShape t = true
+  | .node d cs, h => by
+    simp only [SerOk, Bool.and_eq_true] at h
+    simp only [LeafShape, Bool.and_eq_true, Bool.or_eq_true, Bool.not_eq_true', beq_iff_eq]
+    refine ⟨?_, serOkL_leafShape cs h.2⟩
+    have hk := h.1.2
+    unfold kindOk at hk
+    cases hkd : d.kind <;> simp [hkd, Node.isLeaf] at hk ⊢ <;> first | exact hk | exact hk.1
+theorem serOkL_leafShape : ∀ (cs : TL), SerOkL cs = true → LeafShapeL cs = true
+  | .nil, _ => rfl
+  | .cons t ts, h => by
+    simp only [SerOkL, Bool.and_eq_true] at h
+    simp only [LeafShapeL, Bool.and_eq_true]
+    exact ⟨serOk_leafShape t h.1, serOkL_leafShape ts h.2⟩
+end
+
+/-- structural induction over the tree, by size: a composite that runs a child again needs the statement
+for every clean tree with the child's skeleton -/
+theorem both_size : ∀ (n : Nat) (t : T), size t ≤ n → SerOk t = true → Clean t = true → Good t ∧ Live t := by
+  intro n
+  induction n with
+  | zero => intro t h; cases t; simp only [size] at h; omega
+  | succ n ih =>
+    intro t hsz hs hc
+    obtain ⟨d, cs⟩ := t
+    simp only [size] at hsz
     simp only [SerOk, Bool.and_eq_true, Option.isNone_iff_eq_none] at hs
     simp only [Clean, Bool.and_eq_true] at hc
     obtain ⟨⟨htmo, hko⟩, hsl⟩ := hs
-    have hch := fun j c h => (both_allL cs hsl hc.2 j c h).1
-    have hlv := fun j c h => (both_allL cs hsl hc.2 j c h).2
+    have hboth : ∀ j c, cs.get? j = some c → Good c ∧ Live c := fun j c h =>
+      ih c (by have := sizeL_get cs j c h; omega) (serOkL_get cs j c hsl h) (cleanL_get cs j c hc.2 h)
+    have hch := fun j c h => (hboth j c h).1
+    have hlv := fun j c h => (hboth j c h).2
+    have hG : ∀ j c0, cs.get? j = some c0 → ∀ c, sk c = sk c0 → Clean c = true → Good c ∧ Live c := fun j c0 h c e hcl =>
+      ih c (by have := sizeL_get cs j c0 h; rw [← size_sk c, e, size_sk]; omega)
+        (by rw [← serOk_sk c, e, serOk_sk]; exact serOkL_get cs j c0 hsl h) hcl
+    have hwf : WFL cs = true := wfL_of_cleanL cs hc.2 (serOkL_leafShape cs hsl)
     unfold kindOk at hko
     split at hko
     · rename_i s tag hk
@@ -54,18 +126,14 @@ theorem both_all : ∀ (t : T), SerOk t = true → Clean t = true → Good t ∧
     · rename_i hd hk; exact (good_switch d cs hd hk hc.1 htmo hc.2 hch (by simpa using hko)).imp id (fun f => f hlv)
     · rename_i m hk; exact (good_seq d cs m hk hc.1 htmo hc.2 hch).imp id (fun f => f hlv)
     · rename_i hk; exact (good_ifThen d cs hk hc.1 htmo hc.2 hch (by simpa using hko)).imp id (fun f => f hlv)
+    · rename_i m hk; exact good_loop d cs m hk hc.1 htmo hc.2 hwf hG (by simpa using hko)
+    · rename_i fr hk; exact good_loopIf d cs fr hk hc.1 htmo hc.2 hwf hG (by simpa using hko)
+    · rename_i k m hk
+      simp only [Bool.and_eq_true, beq_iff_eq, decide_eq_true_eq] at hko
+      exact good_repeat d cs k m hk hc.1 htmo hc.2 hwf hG hko.1 hko.2
     · cases hko
-theorem both_allL : ∀ (cs : TL), SerOkL cs = true → CleanL cs = true → ∀ j c, cs.get? j = some c → Good c ∧ Live c
-  | .nil, _, _, j, c, h => by simp [TL.get?] at h
-  | .cons t ts, hs, hc, 0, c, h => by
-    simp only [SerOkL, CleanL, Bool.and_eq_true] at hs hc
-    simp only [TL.get?, Option.some.injEq] at h; subst h
-    exact both_all t hs.1 hc.1
-  | .cons t ts, hs, hc, j + 1, c, h => by
-    simp only [SerOkL, CleanL, Bool.and_eq_true] at hs hc
-    simp only [TL.get?] at h
-    exact both_allL ts hs.2 hc.2 j c h
-end
+
+theorem both_all (t : T) (hs : SerOk t = true) (hc : Clean t = true) : Good t ∧ Live t := both_size (size t) t (Nat.le_refl _) hs hc
 
 theorem good_all (t : T) (hs : SerOk t = true) (hc : Clean t = true) : Good t := (both_all t hs hc).1
 theorem live_all (t : T) (hs : SerOk t = true) (hc : Clean t = true) : Live t := (both_all t hs hc).2
@@ -186,7 +254,7 @@ theorem result_matches_doc_run (t : T) (hs : SerOk t = true) (hc : Clean t = tru
       simp only [G.emit]
       rw [trOf_cons_rootFin, advG_log, htr]
   · have hf' : hasFin t' = false := by simpa using hf
-    obtain ⟨hre, hp⟩ := a4 hf'
+    obtain ⟨hre, hp, _⟩ := a4 hf'
     subst hre
     obtain ⟨pfx, hpp, e⟩ := hp (by simp)
     left; exact ⟨pfx, hpp, by simpa [run] using e⟩
@@ -199,11 +267,12 @@ theorem bigCount_replicate (M n : Nat) : bigCount M (List.replicate n (Op.adv M)
 /-- **liveness for the serial trees covered by `SerOk`**: start the freshly built tree, then any sequence
 of loop passes and clock steps among which at least `cost t + 1` are big (a clock step of at least the
 longest SleepAction delay of the tree; when the tree has no delay, every pass and clock step counts).
-Then the evaluator assigns a result `r`, and the owner has observed the complete visit order followed by
-exactly one finish notification, carrying `r` — however long the schedule goes on afterwards. -/
+If the evaluator assigns a result `r` (no loop of the tree runs for ever), the owner has observed the
+complete visit order followed by exactly one finish notification, carrying `r` — however long the
+schedule goes on afterwards. -/
 theorem finishes_once_run (t : T) (hs : SerOk t = true) (hc : Clean t = true) (ops : List Op) (hcf : ops.all cfOp = true)
-    (M : Nat) (hM : maxDelay t ≤ M) (hbig : cost t + 1 ≤ bigCount M ops) :
-    ∃ r, eval t = some r ∧ trOf (run t {} (.calls [.start] :: ops)).2.log = (visit t).map Sum.inl ++ [Sum.inr r] := by
+    (M : Nat) (hM : maxDelay t ≤ M) (hbig : cost t + 1 ≤ bigCount M ops) (r : Bool × Nat) (hr : eval t = some r) :
+    trOf (run t {} (.calls [.start] :: ops)).2.log = (visit t).map Sum.inl ++ [Sum.inr r] := by
   obtain ⟨hgood, hlive⟩ := both_all t hs hc
   have hg0 : GIu ({} : G) := ⟨GI_init, rfl⟩
   obtain ⟨ok, hg1, _, _, _, hrun⟩ := hgood {} hg0
@@ -216,16 +285,16 @@ theorem finishes_once_run (t : T) (hs : SerOk t = true) (hc : Clean t = true) (o
   have hcf1 : (Op.pass :: ops).all cfOp = true := by simp [cfOp, hcf]
   have hb1 : bigCount M ops ≤ bigCount M (Op.pass :: ops) := by rw [bigCount_cons]; omega
   have rk := hrun (.pass :: ops) hcf1
-  have lk := hlive {} hg0 M hM (.pass :: ops) hcf1 (by omega)
+  have lk := hlive {} hg0 (by rw [hr]; simp) M hM (.pass :: ops) hcf1 (by omega)
   have hrest := runU_rest (.pass :: ops) (start t {}).1 (start t {}).2.1
   generalize runU (start t {}).1 (start t {}).2.1 (.pass :: ops) = R at rk lk hrest ⊢
   obtain ⟨t', g', rest⟩ := R
   obtain ⟨a1, a2, a3, a4⟩ := rk
   obtain ⟨hf, hcnt⟩ := lk
-  simp only [trOf_nil, List.nil_append] at a3 a4
+  simp only [trOf_nil, List.nil_append, hr] at a3 a4
   simp only at a1 a2 a3 a4 hrest hf hcnt ⊢
-  obtain ⟨⟨r, hr, hdone⟩, htr⟩ := a3 hf
-  refine ⟨r, hr, ?_⟩
+  obtain ⟨⟨r', hr', hdone⟩, htr⟩ := a3 hf
+  cases hr'
   cases rest with
   | nil => rw [bigCount_nil] at hcnt; omega
   | cons op rest' =>
@@ -237,11 +306,31 @@ theorem finishes_once_run (t : T) (hs : SerOk t = true) (hc : Clean t = true) (o
     simp only [G.emit]
     rw [trOf_cons_rootFin, advG_log, htr]
 
-/-- the evaluator is total on the covered class (a by-product: the model's run finishes and reports the
-evaluator's value) -/
-theorem eval_total (t : T) (hs : SerOk t = true) (hc : Clean t = true) : ∃ r, eval t = some r := by
-  obtain ⟨r, hr, _⟩ := finishes_once_run t hs hc (List.replicate (cost t + 1) (.adv (maxDelay t)))
-    (by simp [List.all_replicate, cfOp]) (maxDelay t) (Nat.le_refl _) (by rw [bigCount_replicate]; omega)
-  exact ⟨r, hr⟩
+/-- **a tree whose documented meaning is "runs for ever" never finishes**: whatever loop passes and clock
+steps follow the start, the owner observes calls of leaf functions only — no finish notification. -/
+theorem never_finishes_run (t : T) (hs : SerOk t = true) (hc : Clean t = true) (ops : List Op) (hcf : ops.all cfOp = true)
+    (hn : eval t = none) : ∃ tr : List Nat, trOf (run t {} (.calls [.start] :: ops)).2.log = tr.map Sum.inl := by
+  have hgood := good_all t hs hc
+  have hg0 : GIu ({} : G) := ⟨GI_init, rfl⟩
+  obtain ⟨ok, hg1, _, _, _, hrun⟩ := hgood {} hg0
+  have e0 : run t {} (.calls [.start] :: ops) = run (start t {}).1 (start t {}).2.1 (.pass :: ops) := by
+    rw [run, run]
+    have := step_start t {}
+    simp only [Prod.mk.injEq] at this
+    rw [this.1, this.2]
+  rw [e0, run_runU]
+  have hcf1 : (Op.pass :: ops).all cfOp = true := by simp [cfOp, hcf]
+  have rk := hrun (.pass :: ops) hcf1
+  generalize runU (start t {}).1 (start t {}).2.1 (.pass :: ops) = R at rk ⊢
+  obtain ⟨t', g', rest⟩ := R
+  obtain ⟨a1, a2, a3, a4⟩ := rk
+  simp only [trOf_nil, List.nil_append, hn] at a3 a4
+  simp only at a1 a2 a3 a4 ⊢
+  cases hf : hasFin t' with
+  | true => obtain ⟨⟨r, e, _⟩, _⟩ := a3 hf; cases e
+  | false =>
+    obtain ⟨hre, _, tr, e⟩ := a4 hf
+    subst hre
+    exact ⟨tr, by simpa [run] using e⟩
 
 end Tbox.C17
